@@ -13,7 +13,7 @@ Definition mask_value (m y z r b : Z) : Z :=
   if Z.odd b then (zz * y) mod m else zz.
 
 (* TMCG_CreateOpenCard(TMCG_Card), :699-726: row 0 carries the bits of the type (y_0 for 1, 1 for 0) *)
-Definition create_open_card (ky : nat -> Z) (T : Z) : matrix :=
+Definition open_card_qr (ky : nat -> Z) (T : Z) : matrix :=
   fun i j => if Nat.eqb i 0 then (if Z.testbit T (Z.of_nat j) then ky 0%nat else 1) else 1.
 
 (* TMCG_MaskCard(TMCG_Card), :833-851 *)
